@@ -221,6 +221,16 @@ func (in *Interp) harnessAPI(caller *frame, fn *ssa.Function, args []value) (val
 		}
 		in.assert(args[0], msg)
 		return nil, true
+	case "vAnd":
+		return fromTerm(mkAnd(boolTerm(args[0]), boolTerm(args[1]))), true
+	case "vOr":
+		return fromTerm(mkOr(boolTerm(args[0]), boolTerm(args[1]))), true
+	case "vAll":
+		r := tTrue
+		for _, c := range args[0].([]value) {
+			r = mkAnd(r, boolTerm(c))
+		}
+		return fromTerm(r), true
 	case "vReach":
 		in.reached[argStr(args[0])] = true
 		return nil, true
